@@ -229,7 +229,7 @@ def parse_template(path, seen=None):
             for kv in re.findall(r'(\w+)=("(?:[^"\\]|\\.)*"|\S+)', m.group(2)):
                 v = kv[1]
                 if v.startswith('"'):
-                    v = bytes(v[1:-1], 'utf8').decode('unicode_escape')
+                    v = v[1:-1].replace('\\"', '"')
                 fn['opts'][kv[0]] = v
             i += 1
             mode = ('sig', None)
